@@ -24,6 +24,7 @@ import (
 	"github.com/projectcalico/api/pkg/lib/numorstring"
 	metav1 "k8s.io/apimachinery/pkg/apis/meta/v1"
 
+	"github.com/projectcalico/calico/felix/calc"
 	"github.com/projectcalico/calico/felix/labelindex"
 	"github.com/projectcalico/calico/felix/labelindex/ipsetmember"
 	"github.com/projectcalico/calico/lib/std/uniquelabels"
@@ -225,6 +226,19 @@ type epIn struct {
 	parents []string
 }
 
+// ruleIn: one policy with a single inbound rule carrying (selector, notSelector) per direction.
+type ruleIn struct {
+	srcPos, srcNeg, dstPos, dstNeg string
+}
+
+// rulesCB receives the RuleScanner's parsed rules (which IP set ids each rule references).
+type rulesCB struct{ s *state }
+
+func (c rulesCB) OnPolicyActive(k model.PolicyKey, r *calc.ParsedRules)    { c.s.parsed[k.Name] = r }
+func (c rulesCB) OnPolicyInactive(k model.PolicyKey)                       { delete(c.s.parsed, k.Name) }
+func (c rulesCB) OnProfileActive(model.ProfileRulesKey, *calc.ParsedRules) {}
+func (c rulesCB) OnProfileInactive(model.ProfileRulesKey)                  {}
+
 type setIn struct {
 	sel   *selector.Selector
 	proto int
@@ -243,6 +257,12 @@ type state struct {
 	dead      bool
 	history   []string
 	netEvents bool
+	// the real RuleScanner in front of the index (ops `rule` / `delrule`)
+	rs      *calc.RuleScanner
+	uids    map[string]string // RuleScanner IP set UID -> short protocol id u<N>
+	derived [][2]string       // protocol lines (op, out) produced by RuleScanner callbacks during the current op
+	rules   map[string]*ruleIn
+	parsed  map[string]*calc.ParsedRules
 }
 
 var protoNum = map[string]int{"tcp": 6, "udp": 17, "sctp": 132}
@@ -272,6 +292,42 @@ func (s *state) reset(suppress bool) {
 	s.ipsets = map[string]*setIn{}
 	s.dead = false
 	s.history = nil
+	s.uids = map[string]string{}
+	s.rules = map[string]*ruleIn{}
+	s.parsed = map[string]*calc.ParsedRules{}
+	s.rs = calc.NewRuleScanner()
+	s.rs.RulesUpdateCallbacks = rulesCB{s}
+	// as in NewCalculationGraph: OnIPSetActive -> index.UpdateIPSet, OnIPSetInactive -> index.DeleteIPSet
+	// + the consumer's OnIPSetRemoved.  Each call becomes a derived protocol line for the model.
+	s.rs.OnIPSetActive = func(ipSet *calc.IPSetData) {
+		uid := ipSet.UniqueID()
+		id, ok := s.uids[uid]
+		if !ok {
+			id = fmt.Sprintf("u%d", len(s.uids))
+			s.uids[uid] = id
+		}
+		port := ipSet.NamedPort
+		if port == "" {
+			port = "-"
+		}
+		line := fmt.Sprintf("dipset %s %s %s %d %s %s", id, hex.EncodeToString([]byte(ipSet.Selector.String())),
+			selTable(ipSet.Selector), int(ipSet.NamedPortProtocol), port, hex.EncodeToString([]byte(ipSet.Selector.String())))
+		s.events = nil
+		s.netEvents = false
+		s.ipsets[id] = &setIn{ipSet.Selector, int(ipSet.NamedPortProtocol), ipSet.NamedPort}
+		s.idx.UpdateIPSet(id, ipSet.Selector, ipSet.NamedPortProtocol, ipSet.NamedPort)
+		s.derived = append(s.derived, [2]string{line, s.render()})
+	}
+	s.rs.OnIPSetInactive = func(ipSet *calc.IPSetData) {
+		id := s.uids[ipSet.UniqueID()]
+		s.events = nil
+		s.netEvents = false
+		delete(s.ipsets, id)
+		s.idx.DeleteIPSet(id)
+		delete(s.acc, id)
+		s.events = append(s.events, "x"+id)
+		s.derived = append(s.derived, [2]string{"ddelipset " + id, s.render()})
+	}
 	s.idx.OnMemberAdded = func(id string, m ipsetmember.IPSetMember) {
 		ms := memberString(m)
 		if s.acc[id] == nil {
@@ -432,9 +488,14 @@ func memberProto(p portTok) int {
 }
 
 func (s *state) expected(set *setIn) map[string]bool {
+	return s.expectedFn(set, func(l map[string]string) bool { return set.sel.Evaluate(l) })
+}
+
+// expectedFn: the members of a set whose selection predicate is `match`.
+func (s *state) expectedFn(set *setIn, match func(map[string]string) bool) map[string]bool {
 	exp := map[string]bool{}
 	for _, e := range s.eps {
-		if !set.sel.Evaluate(effLabels(s, e)) {
+		if !match(effLabels(s, e)) {
 			continue
 		}
 		for _, n := range epNets(e) {
@@ -602,6 +663,33 @@ func exec(h *rt.H, s *state, op string) (out string) {
 		}
 		s.ipsets[w[1]] = &setIn{sel, proto, port}
 		s.idx.UpdateIPSet(w[1], sel, ipsetmember.Protocol(proto), port)
+	case "rule":
+		unh := func(t string) string {
+			if t == "-" {
+				return ""
+			}
+			b, err := hex.DecodeString(t)
+			if err != nil {
+				panic(err)
+			}
+			return string(b)
+		}
+		r := &ruleIn{unh(w[2]), unh(w[3]), unh(w[4]), unh(w[5])}
+		s.rules[w[1]] = r
+		s.rs.OnPolicyActive(model.PolicyKey{Kind: "GlobalNetworkPolicy", Name: w[1]}, &model.Policy{
+			Tier: "default", Selector: "all()",
+			InboundRules: []model.Rule{{Action: "allow", SrcSelector: r.srcPos, NotSrcSelector: r.srcNeg,
+				DstSelector: r.dstPos, NotDstSelector: r.dstNeg}}})
+		s.ruleOracle()
+		s.oracle()
+		return "ok"
+	case "delrule":
+		delete(s.rules, w[1])
+		s.rs.OnPolicyInactive(model.PolicyKey{Kind: "GlobalNetworkPolicy", Name: w[1]})
+		s.oracle()
+		return "ok"
+	case "dipset", "ddelipset":
+		return "derived" // never executed: regenerated by the RuleScanner (filtered out before exec)
 	case "delipset":
 		delete(s.ipsets, w[1])
 		s.idx.DeleteIPSet(w[1])
@@ -677,7 +765,88 @@ func exec(h *rt.H, s *state, op string) (out string) {
 		h.OracleFail("endpoint-count", "index holds a different number of endpoints than the inputs", map[string]any{"have": n, "want": len(s.eps), "ops": s.history})
 	}
 	s.oracle()
+	s.ruleOracle()
 	return s.render()
+}
+
+// ruleOracle: C04 speaks about the addresses selected by the RULE.  For every active rule and
+// direction, evaluate the rule's selector and notSelector SEPARATELY (pos && !neg; a lone
+// notSelector selects what it matches) on every endpoint / network set and compare with what the
+// consumer holds for the IP set id the RuleScanner put into that rule.
+func (s *state) ruleOracle() {
+	for name, r := range s.rules {
+		pr := s.parsed[name]
+		if pr == nil || len(pr.InboundRules) != 1 {
+			s.h.OracleFail("rule-not-scanned", "the RuleScanner did not report the rule", map[string]any{"rule": name, "ops": s.history})
+			continue
+		}
+		p := pr.InboundRules[0]
+		check := func(dir, pos, neg string, posIDs, negIDs []string) {
+			var ids []string
+			var match func(map[string]string) bool
+			switch {
+			case pos != "":
+				ps, err1 := selector.Parse(pos)
+				var ns *selector.Selector
+				var err2 error
+				if neg != "" {
+					ns, err2 = selector.Parse(neg)
+				}
+				if err1 != nil || err2 != nil {
+					panic("generator produced an unparsable rule selector")
+				}
+				ids = posIDs
+				match = func(l map[string]string) bool { return ps.Evaluate(l) && (ns == nil || !ns.Evaluate(l)) }
+				if len(negIDs) != 0 {
+					s.h.Count("rule:neg-not-combined")
+				}
+			case neg != "":
+				ns, err := selector.Parse(neg)
+				if err != nil {
+					panic("generator produced an unparsable rule selector")
+				}
+				ids = negIDs
+				match = func(l map[string]string) bool { return ns.Evaluate(l) }
+			default:
+				return
+			}
+			if len(ids) != 1 {
+				s.h.OracleFail("rule-ipset-count", "a rule direction with a selector does not reference exactly one selector IP set",
+					map[string]any{"rule": name, "dir": dir, "ids": ids, "ops": s.history})
+				return
+			}
+			id := s.uids[ids[0]]
+			set := s.ipsets[id]
+			if set == nil {
+				s.h.OracleFail("rule-ipset-inactive", "a rule references an IP set the index was not told about",
+					map[string]any{"rule": name, "dir": dir, "ops": s.history})
+				return
+			}
+			exp := s.expectedFn(&setIn{nil, 0, ""}, match)
+			got := s.acc[id]
+			bad := false
+			if !s.suppress {
+				bad = strings.Join(setKeys(exp), ",") != strings.Join(setKeys(got), ",")
+			} else {
+				var g, e []cidrTok
+				for k := range got {
+					g = append(g, parseCidrTok(k[1:]))
+				}
+				for k := range exp {
+					e = append(e, parseCidrTok(k[1:]))
+				}
+				bad = strings.Join(normCover(g), ",") != strings.Join(normCover(e), ",")
+			}
+			if bad {
+				s.h.OracleFail("rule-ipset-mismatch",
+					"the IP set emitted for a rule does not hold exactly the addresses selected by the rule's selector and notSelector",
+					map[string]any{"rule": name, "dir": dir, "selector": pos, "notSelector": neg, "ipset_selector": set.sel.String(),
+						"want": setKeys(exp), "got": setKeys(got), "ops": s.history})
+			}
+		}
+		check("src", r.srcPos, r.srcNeg, p.SrcIPSetIDs, p.NotSrcIPSetIDs)
+		check("dst", r.dstPos, r.dstNeg, p.DstIPSetIDs, p.NotDstIPSetIDs)
+	}
 }
 
 // ---- generator ----------------------------------------------------------------------
@@ -898,9 +1067,61 @@ func genCase(h *rt.H) []string {
 			ops = append(ops, strings.Join(ep, " "))
 		}
 	}
+	hx := func(t string) string {
+		if t == "" {
+			return "-"
+		}
+		return hex.EncodeToString([]byte(t))
+	}
+	// genRule: a policy rule with (selector, notSelector) for source and destination; positive
+	// selectors with a top-level `||` / `&&` mix, un-parenthesised, as a GlobalNetworkPolicy delivers them
+	genRule := func() string {
+		pos := func() string {
+			switch h.Intn(6) {
+			case 0:
+				return ""
+			case 1:
+				return genAtom(h)
+			case 2, 3:
+				return genAtom(h) + " || " + genAtom(h)
+			case 4:
+				return genAtom(h) + " || " + genAtom(h) + " && " + genAtom(h)
+			default:
+				return genAtom(h) + " && " + genAtom(h) + " || " + genAtom(h)
+			}
+		}
+		neg := func() string {
+			switch h.Intn(4) {
+			case 0:
+				return ""
+			case 1:
+				return genAtom(h) + " || " + genAtom(h)
+			default:
+				return genAtom(h)
+			}
+		}
+		return fmt.Sprintf("rule %s %s %s %s %s", rt.Pick(h, []string{"r1", "r2", "r3"}), hx(pos()), hx(neg()), hx(pos()), hx(neg()))
+	}
+	if h.Chance(0.2) {
+		// selector with a top-level `||` + notSelector, and an endpoint matching an early alternative
+		// AND the notSelector: it must NOT be in the rule's IP set
+		id := rt.Pick(h, epIDs)
+		ep := strings.Fields(genEp(h, id))
+		ep[3] = "a=x,c=x"
+		if ep[4] == "-" {
+			ep[4] = tokFromString("10.0.0.1").String()
+		}
+		ep[6] = "-"
+		ops = append(ops, strings.Join(ep, " "),
+			fmt.Sprintf("rule r1 %s %s - -", hx("a == 'x' || b == 'x'"), hx("c == 'x'")))
+	}
 	n := 6 + h.Intn(30)
 	for i := 0; i < n; i++ {
-		switch r := h.Intn(100); {
+		switch r := h.Intn(112); {
+		case r >= 100 && r < 109:
+			ops = append(ops, genRule())
+		case r >= 109:
+			ops = append(ops, "delrule "+rt.Pick(h, []string{"r1", "r2", "r3"}))
 		case r < 24:
 			ops = append(ops, ipsetLine(rt.Pick(h, defs)))
 		case r < 32:
@@ -940,8 +1161,16 @@ func main() {
 		h.Case(tag)
 		nontriv := false
 		for _, op := range ops {
+			if fw := strings.Fields(op); fw[0] == "dipset" || fw[0] == "ddelipset" {
+				continue // derived lines of a replayed case: regenerated by the real RuleScanner
+			}
+			s.derived = nil
 			out := exec(h, s, op)
 			h.Op(op, out)
+			for _, d := range s.derived {
+				h.Op(d[0], d[1])
+				h.Count("op:" + strings.Fields(d[0])[0])
+			}
 			h.Count("op:" + strings.Fields(op)[0])
 			if fw := strings.Fields(op); fw[0] == "ep" && prevParents[fw[2]] != "" && prevParents[fw[2]] != fw[6] && prevRest[fw[2]] == strings.Join(append(append([]string{}, fw[:6]...), sortedCSV(fw[6])), " ") {
 				h.Count("ep:parent-order-only-change")
